@@ -1,15 +1,19 @@
 ----------------------------- MODULE HeaderTrace -----------------------------
 (***************************************************************************)
 (* Direction B for C04 (deciding): events recorded from a real-PoW chain    *)
-(* (AutomatedTesting, Options::NONE) are accepted iff every verdict class   *)
-(* (accept / reject) equals the one Header.tla's action for that entry      *)
-(* point yields, the state `known` evolving by the specification's own      *)
-(* actions.  Events:                                                        *)
+(* (AutomatedTesting) are accepted iff every verdict class (accept /        *)
+(* reject) equals the one Header.tla's action for that entry point yields   *)
+(* and the headers the real node has stored afterwards are the ones in      *)
+(* `known`, which evolves by the specification's own actions.  Every call   *)
+(* is logged with the Options it was made with (`opts`, a list of names     *)
+(* out of SKIP_POW / SYNC / MINE; the harness uses the sets the node uses:  *)
+(* none, SYNC, MINE, plus SKIP_POW combinations).  Events:                  *)
 (*   Reset  genesis                    a fresh node                         *)
-(*   Header h, skip                    Chain::process_block_header          *)
-(*   Sync   hs, skip                   Chain::sync_block_headers            *)
-(*   Block  h                          Chain::process_block                 *)
+(*   Header h, opts, stored            Chain::process_block_header          *)
+(*   Sync   hs, opts, stored[]         Chain::sync_block_headers            *)
+(*   Block  h, opts, stored            Chain::process_block                 *)
 (*   Read   h, now                     deserialize::<UntrustedBlockHeader>  *)
+(* `stored` = get_block_header(hash) succeeds after the call.               *)
 (***************************************************************************)
 EXTENDS Header, TLC, Json, IOUtils
 
@@ -20,7 +24,11 @@ tvars == <<known, l>>
 IsEvent(k) == l <= Len(Rec) /\ Rec[l].k = k /\ l' = l + 1
 E == Rec[l]
 
-Cls(res) == IF res = "ok" THEN "accept" ELSE "reject"
+Cls(res) == IF res = "ok" THEN "accept" ELSE IF res = "orphan" THEN "orphan" ELSE "reject"
+
+Opts == {E.opts[i] : i \in DOMAIN E.opts}
+OptsOK == Opts \subseteq Options
+Has(h) == h.id \in DOMAIN known'
 
 TInit == known = << >> /\ l = 1
 
@@ -29,16 +37,22 @@ TReset == /\ IsEvent("Reset")
           /\ known' = (E.genesis.id :> E.genesis)
 
 THeader == /\ IsEvent("Header")
-           /\ \E res \in {ProcessHeaderRes(E.h, known, E.skip)} :
-                 ProcessBlockHeader(E.h, E.skip, res) /\ E.verdict = Cls(res)
+           /\ OptsOK
+           /\ \E res \in {ProcessHeaderRes(E.h, known, Opts)} :
+                 ProcessBlockHeader(E.h, Opts, res) /\ E.verdict = Cls(res)
+           /\ E.stored = Has(E.h)
 
 TSync == /\ IsEvent("Sync")
-         /\ \E res \in {SyncRes(E.hs, known, E.skip)} :
-               SyncBlockHeaders(E.hs, E.skip, res) /\ E.verdict = Cls(res)
+         /\ OptsOK
+         /\ \E res \in {SyncRes(E.hs, known, Opts)} :
+               SyncBlockHeaders(E.hs, Opts, res) /\ E.verdict = Cls(res)
+         /\ \A i \in DOMAIN E.hs : E.stored[i] = Has(E.hs[i])
 
 TBlock == /\ IsEvent("Block")
-          /\ \E res \in {"ok", "body_mismatch", ProcessHeaderRes(E.h, known, E.skip)} :
-                ProcessBlock(E.h, E.skip, res) /\ E.verdict = Cls(res)
+          /\ OptsOK
+          /\ \E res \in {"ok", "body_mismatch", "orphan", PowOnly(E.h), ProcessHeaderRes(E.h, known, Opts)} :
+                ProcessBlock(E.h, Opts, res) /\ E.verdict = Cls(res)
+          /\ E.stored = Has(E.h)
 
 TRead == /\ IsEvent("Read")
          /\ \E res \in {ReadCheck(E.h, E.now)} :
